@@ -10,7 +10,7 @@ from core import err_kind
 
 ID = "C01"
 MODEL_OP = "getitem"
-RULE = ("cubes of 1-4 dims (entries 1-5) x WCS family (exact probe: separable / coupled / extra world axis; "
+RULE = ("cubes of 1-4 dims (entries 1-5) x WCS family (exact probe: separable / coupled / extra world axis / fewer world than pixel axes; already-wrapped: celestial FITS with a pixel axis sliced away; "
         "FITS separable / celestial / rotated; gWCS tables) x payload x mask x uncertainty x items built per axis "
         "from ints in [-n-1,n], slices with bounds in [-n-2,n+2] or None, Ellipsis, short tuples, bare items, "
         "plus a malformed stream (None, too long, two Ellipsis, steps) and two-step chains; quick tier also "
@@ -19,7 +19,7 @@ RULE = ("cubes of 1-4 dims (entries 1-5) x WCS family (exact probe: separable / 
 TRUSTED = ["numpy basic indexing (reference for data/mask/uncertainty)", "astropy NDData slicing and SlicedLowLevelWCS (modelled, compared on every case)"]
 ASSUMPTIONS = ["world values of real WCS families are compared with rtol/atol 1e-9; exact on ProbeWCS",
                "cubes built on a WCS whose array_shape matches the data (or is absent)"]
-FAMILIES = ["probe", "probe_coupled", "probe_extra", "fits_sep", "fits_cel", "fits_rot", "gwcs"]
+FAMILIES = ["probe", "probe_coupled", "probe_extra", "probe_drop", "fits_sep", "fits_cel", "fits_rot", "fits_sliced", "gwcs"]
 
 
 def corpus():
